@@ -455,7 +455,7 @@ func cmdCheck(o options, prop string) int {
 		// known finding?
 		matched := false
 		for _, f := range findings {
-			if f.Kind == "finding" && f.Property == prop && f.Obligation == g.name {
+			if f.Kind == "finding" && f.Property == prop && f.Obligation == strings.ReplaceAll(g.name, " ", "") {
 				matched = true
 				knownLines = append(knownLines, fmt.Sprintf("KNOWN-FINDING: property=%s obligation=%s %s", prop, g.name, f.Text))
 				knownNames = append(knownNames, g.name)
